@@ -1,6 +1,6 @@
 """Claim registered in MANIFEST.json for C13 (regenerate with bin/mkmanifest)."""
 CLAIM = dict(
-    engine='tlc+spawntrace+harness/spawnd',
+    engine='tlc+spawntrace+harness/spawnd+probe/spawnp+probe/spawnn',
     level='model_checking',
     design_ref='DESIGN.md section 7 C13; notes/C13.md',
     technique='TLA+ algorithm model of Command/do_spawn (Spawn.tla: two processes, sync pipe, one planned failure per run) '
@@ -20,13 +20,19 @@ CLAIM = dict(
          "command + 384 configurations of the other dimensions x 31 fault plans (~236k states per `start` variant); the "
          "three deviations of the pinned tree (child-side `?`, negative execve errno, inverted env test) are re-exhibited "
          "by TLC on every run as an anti-vacuity test. Real code: every fault-free configuration and 3 (thorough 24) "
-         "configurations per (fault, predicted outcome) class are executed (quick ~2170 runs) with the failure injected by "
-         "ptrace in the caller or in the forked child; each trace is accepted or rejected by TLC at the property level and "
+         "configurations per (fault, predicted outcome) class are executed in four builds - std-linked with `start`, "
+         "std-linked without `start`, no-libc executable started by tiny-std's own _start (real Environment::Inherit), "
+         "no-libc no-alloc executable using the free function process::spawn::<N> - quick ~3800 runs, thorough ~57000, "
+         "with the failure injected by ptrace in the caller or in the forked child; 1 run in 5 waits with a "
+         "Child::try_wait loop, helpers end by exit 0/3/7 or SIGKILL/SIGTERM; each trace is accepted or rejected by TLC at the property level and "
          "its per-process call sequence / result is compared with the model's prediction.",
     note="Trusted: TLC, SpawnAbs.tla, the tracer's view of the process tree (ptrace stops; per-task order is causal, "
          "cross-task order only through system-call stops), the helper's dump. One injected failure per run; injection "
-         "suppresses the call (close is executed and its result overwritten). Not reached: real Environment::Inherit "
-         "(needs tiny-std's own _start; the std-linked `start` build passes a NULL envp, both readings admitted), "
+         "suppresses the call (close is executed and its result overwritten). The std-linked `start` build passes a NULL "
+         "envp for Environment::Inherit (tiny-std's ENV is only set by its own _start): both readings admitted there, "
+         "the exact one is checked in the no-libc builds. Readings fixed in SpawnAbs.tla: an error of a parent-side "
+         "step after the fork (sync-pipe read, wait4) need not carry an errno; a child that has reported its error and "
+         "is about to exit is not 'running the caller's code' (reaping is not demanded). Not reached: "
          "setuid/setgid/setpgid to foreign ids (root sandbox: own ids, failures injected), signals during spawn, "
-         "the no-alloc `spawn` function, aarch64. Descriptor leaks of do_spawn belong to C12.",
+         "two simultaneous failures, aarch64. Descriptor leaks of do_spawn belong to C12.",
 )
